@@ -473,6 +473,11 @@ func runC17(w *World, r *Report) {
 			r.Check(addOK, "C17.parallel-protocol", "wg.Add(1) precedes each spawn", g.Pos(), "counted before it starts", "a worker is spawned without being counted: Wait can return before it finished")
 			// Wait between spawn and every return
 			skip, wit := pathQuery{fn: prt, from: g, goal: isReturn, avoid: func(in ssa.Instruction) bool { return calleeFullName(in) == "(*sync.WaitGroup).Wait" }}.exists()
+			instrs(prt, func(d ssa.Instruction) {
+				if df, ok := d.(*ssa.Defer); ok && calleeFullName(df) == "(*sync.WaitGroup).Wait" && instrDominates(df, g) {
+					skip = false // registered before the first spawn: runs on every way out
+				}
+			})
 			r.Check(!skip, "C17.parallel-protocol", "wg.Wait lies between the spawns and every return", g.Pos(), "results are read only after all workers finished", "parallelRunToolCall can return while workers are still running: "+wit)
 			if lit != nil {
 				var dDone, dRec *ssa.Defer
@@ -514,6 +519,76 @@ func runC17(w *World, r *Report) {
 			}
 			r.Check(ctxOK, "C17.parallel-protocol", "workers run on the caller's context", g.Pos(), "ctx parameter passed through", "workers get a derived context (e.g. one cancelled when parallelRunToolCall returns): streaming tools that outlive the call are aborted")
 			r.Check(ptrOK, "C17.parallel-protocol", "each worker gets a pointer to its own task", g.Pos(), "&tasks[i]", "workers do not write into their own task slot")
+		}
+		// the inline call made after the spawns may panic (it is the user's tool): the workers are waited for on that
+		// way out as well — Wait is registered with defer before the call
+		instrs(prt, func(in ssa.Instruction) {
+			c, ok := in.(*ssa.Call)
+			if !ok || staticCallee(c) != nil || c.Call.IsInvoke() || len(gos) == 0 {
+				return
+			}
+			if _, isB := c.Call.Value.(*ssa.Builtin); isB {
+				return
+			}
+			afterSpawn, _ := pathQuery{fn: prt, from: gos[0], goal: func(x ssa.Instruction) bool { return x == ssa.Instruction(c) }}.exists()
+			if !afterSpawn {
+				return
+			}
+			deferredWait := false
+			instrs(prt, func(d ssa.Instruction) {
+				if df, ok := d.(*ssa.Defer); ok && calleeFullName(df) == "(*sync.WaitGroup).Wait" && instrDominates(df, c) {
+					deferredWait = true
+				}
+			})
+			r.Check(deferredWait, "C17.parallel-protocol", "workers are waited for also when the inline call panics", c.Pos(), "defer wg.Wait() registered before the inline call", "when the tool of the first call panics, the panic leaves parallelRunToolCall past wg.Wait(): the tools node and the graph are reported as ended (and Invoke returns the panic as an error) while the other tool calls are still running — their OnEnd fires after the run is over, their results are written into a task list nobody reads")
+		})
+		// the option slice handed to every concurrently running tool is the same backing array: its capacity is clipped
+		// (opts[:len:len]) before it is shared, so that a tool appending to its variadic opts gets a copy instead of
+		// writing into the memory its siblings read
+		{
+			optsP := prt.Params[len(prt.Params)-1]
+			clipped := func(v ssa.Value) bool {
+				sl, ok := v.(*ssa.Slice)
+				return ok && sl.Max != nil && sl.X == ssa.Value(optsP)
+			}
+			nShared, bad := 0, token.NoPos
+			instrs(prt, func(in ssa.Instruction) {
+				ci, ok := in.(ssa.CallInstruction)
+				if !ok {
+					return
+				}
+				if _, isB := ci.Common().Value.(*ssa.Builtin); isB {
+					return
+				}
+				// only hand-overs on the concurrent path (a spawn before or after them) share the slice
+				concurrent := false
+				if _, isGo := in.(*ssa.Go); isGo {
+					concurrent = true
+				} else {
+					isGoI := func(x ssa.Instruction) bool { _, ok := x.(*ssa.Go); return ok }
+					if ok, _ := (pathQuery{fn: prt, from: in, goal: isGoI}).exists(); ok {
+						concurrent = true
+					}
+					for _, g := range gos {
+						if ok, _ := (pathQuery{fn: prt, from: g, goal: func(x ssa.Instruction) bool { return x == in }}).exists(); ok {
+							concurrent = true
+						}
+					}
+				}
+				if !concurrent {
+					return
+				}
+				for _, a := range ci.Common().Args {
+					if !types.Identical(a.Type(), optsP.Type()) {
+						continue
+					}
+					nShared++
+					if !clipped(a) {
+						bad = in.Pos()
+					}
+				}
+			})
+			r.Check(nShared >= 2 && bad == token.NoPos, "C17.parallel-protocol", "the tool options shared by the concurrent calls are capacity-clipped", prt.Pos(), fmt.Sprintf("%d hand-overs of opts[:len(opts):len(opts)]", nShared), "the variadic option slice is handed to every concurrently running tool with its spare capacity ("+w.pos(bad)+"): three WithToolOption calls leave len 3 / cap 4, and a tool that appends a default option to its opts writes into the array its siblings are reading — a data race, and both tools end up running with the last writer's option")
 		}
 		// no cancellable context derived here at all
 		der := callsNamed(prt, "context.WithCancel", "context.WithTimeout", "context.WithDeadline")
